@@ -252,6 +252,28 @@ fn off_all() {
 
 /// judge one invocation: offered/accepted from the seam, `obs` from the public output.
 /// `name_of` maps a candidate value to its alphabet name (class of the violation).
+/// is `k`, drawn and accepted by the sampler, one the operation must discard and replace (the standards' retry steps)?
+fn degenerate(op: &str, k: &BigUint) -> bool {
+    let d = hb(ANNEX_D);
+    match op {
+        "sm2.sign" => {
+            let pk = sm2::g_mul(&d);
+            let e = sm2::digest_e(sm2::DEFAULT_ID, &pk, b"c14 message");
+            sm2::sign_with_k(&d, &e, k).is_none()
+        }
+        "sm2.encrypt" => sm2::encrypt_with_k(&sm2::g_mul(&d), b"c14", k).is_none(),
+        "sm9.sign" => {
+            let fx = sm9fix();
+            sm9::sign_with_r(&fx.g_sign, &fx.ds, b"c14 message", k).is_none()
+        }
+        "sm9.encrypt" => {
+            let fx = sm9fix();
+            sm9::encrypt_with_r(&sm9::enc_g(&fx.ppube), &fx.ppube, b"Bob", b"c14", k).is_none()
+        }
+        _ => false,
+    }
+}
+
 fn judge(ctx: &Ctx, op: &str, name_of: &dyn Fn(&BigUint) -> String, obs: Guard<Observed>, offered: &[[u8; 32]], accepted: &[[u64; 4]], cj: &dyn Fn() -> Value) -> Option<BigUint> {
     let ord = order(op);
     let site = op.to_string();
@@ -273,6 +295,15 @@ fn judge(ctx: &Ctx, op: &str, name_of: &dyn Fn(&BigUint) -> String, obs: Guard<O
             if drawn.is_zero() || drawn >= ord {
                 ctx.violation(&site, &format!("out-of-range-candidate-used/{}", name_of(&drawn)), format!("used={} order={}", a2::hexbig(&drawn), a2::hexbig(&ord)), cj());
                 return None;
+            }
+            // a scalar the sampler accepted may be discarded by the operation only where the standard says so (r = 0,
+            // r + k = n, s = 0, all-zero key stream, l = 0); any other discard skews the distribution of the scalars used
+            for a in &accepted[..accepted.len() - 1] {
+                let a = from_limbs(a);
+                if !degenerate(op, &a) {
+                    ctx.violation(&site, "accepted-scalar-discarded-without-cause", format!("discarded={} used={}", a2::hexbig(&a), a2::hexbig(&drawn)), cj());
+                    return None;
+                }
             }
             if let Some(pb) = o.problem {
                 ctx.violation(&site, "output-inconsistent-with-drawn-scalar", format!("{} (drawn={})", pb, a2::hexbig(&drawn)), cj());
